@@ -12,6 +12,7 @@
 #include "cstl/hash.h"
 #include <string.h>
 #include <stdio.h>
+#include <stdlib.h>
 
 #define MAXT 2
 #define MAXE 520
@@ -268,12 +269,13 @@ static void wb_snap(int t, struct wb *w)
     if (w->pending)
         for (i = 0; i < w->count && i < 64; i++) w->bits[i] = T[t].bucket.at[i].cst == T[t].bucket.cst;
 }
+static int no_whitebox;         /* VERIF_HASH_NO_WHITEBOX=1: boundary oracles only (used to validate them) */
 static void wb_check(int t, const struct wb *b)
 {
     struct wb a;
     size_t i;
     int flips = 0;
-    if (!b->pending) return;
+    if (!b->pending || no_whitebox) return;
     wb_snap(t, &a);
     if (!a.pending) { VRT_COUNT("incr.whitebox.finished-by-keyed-call"); return; }
     if (a.clean < b->clean + 1)
@@ -876,6 +878,7 @@ static void run_case(uint64_t idx)
 static void winit(void)
 {
     (void)ncases();
+    no_whitebox = getenv("VERIF_HASH_NO_WHITEBOX") != NULL;
     vrt_sig_name(0, "table-states");
 }
 
